@@ -1,6 +1,8 @@
 #!/bin/bash
 # For every fix: commit of /repo: revert it in a scratch worktree (outside /repo and /verif, removed afterwards), run the checks of the
 # properties it repaired against that tree, and report whether the defect is detected again.  Results: build/revert_fixes.txt
+# Not in the list (checked by hand, see DESIGN.md 13.4): 62cf968+f13d8cc (later fixes touched the same line: reverted by editing the
+# line back, C03 reports consumed-is-not-declared-length), 5fecd58 and 9d4ed8e (found by the thorough tier of C03 / C02).
 set -u
 cd "$(dirname "$0")/.."
 WT=/tmp/verif_revwt_$$
@@ -55,7 +57,22 @@ d3d62e2 C03
 ec71119 C11
 1d6320a C11
 e261395 C10
-62cf968,f13d8cc C03
+d9ce006 C02
+f070bbf C02
+22ec315 C02
+4fa6ad7 C02
+a9072d5,0fa6cf7 C02
+14915bf C02
+89d22ab C02
+db9150a C02
+6c65dc6 C02 C05
+d8de087 C02
+9ba7892 C02
+55f69bc C02
+56ce69f C01 C05
+4cc3513 C04 C06
+26bcd43 C07
+af06d0d C13
 0228236 C08
 6d4332f C09
 LIST
